@@ -199,7 +199,8 @@ func (w *Rewriter) Rewrite(name string, b []byte, depth int) []byte {
 			case sh.Cat == "message" && fd.Kind == "message":
 				sub := w.Rewrite(fd.Ref, payload, depth+1)
 				// split a singular sub-message into two occurrences (merge semantics)
-				if !sh.Repeated && r.Intn(4) == 0 {
+				// (more often for a oneof member: the wrapper must be reused, not replaced)
+				if !sh.Repeated && (r.Intn(4) == 0 || fd.Oneof != "" && r.Intn(2) == 0) {
 					if parts, ok := Split(sub); ok && len(parts) >= 2 {
 						k := 1 + r.Intn(len(parts)-1)
 						out = append(out, lenRec(r, rec, Join(parts[:k])), lenRec(r, rec, Join(parts[k:])))
